@@ -6,6 +6,20 @@ func reg(p *PropSpec) { propSpecs[p.ID] = p }
 
 func init() {
 	reg(&PropSpec{
+		ID: "C01", Prefix: "vh_C01_",
+		Quick:    Tier{Params: map[string]int{"depth": 1, "exts": 1, "extras": 1, "name_len": 1, "sizes": 1, "any_shapes": 2, "vary": 1, "vary_points": 40, "vary_alts": 4}},
+		Thorough: Tier{Params: map[string]int{"depth": 1, "exts": 2, "extras": 2, "name_len": 2, "sizes": 2, "any_shapes": 6, "vary": 1, "vary_points": 60, "vary_alts": 5}},
+		Bounds: []string{
+			"one harness per object kind (17 kinds): a symbolic normal-form document whose optional members each have a solver variable for presence (all 2^n keyword combinations in one path), symbolic leaf values (opaque strings, 64-bit numbers, booleans)",
+			"vendor extension / unknown-keyword / property / path names: prefix + name_len symbolic bytes over {a Z 0 \" \\ / ~ % space ^ $ { } 0x01 0xC3 0xA9} + index digit; exts extension members, extras unknown schema keywords, containers of 1..sizes entries",
+			"nesting depth 1: children are minimal documents of their kind (required members only)",
+			"secondary choices (payload shapes, union forms, enum values, container sizes) vary one choice point at a time (vary=1), not as a product",
+		},
+		Outside:     []string{"deeper nesting with fully symbolic children", "interactions between two non-default secondary choices", "longer names", "YAML", "numbers that are not exactly representable (excluded by the property)"},
+		Assumptions: []string{"normal form as stated by the property (required members present, non-empty strings, true booleans, non-empty containers, finite numbers, names not folding onto keywords: names end in a digit)", "$ref members hold one of three concrete canonical references"},
+		Models:      []string{"M-json (struct field tables from go/types tags of the current source; Marshaler/Unmarshaler bodies from SSA; hand-built text parsed by the rope parser)", "M-swag.ConcatJSON", "M-reflect (swag name provider)", "lazy presence for map-range loops (fork only if the loop body has an effect)"},
+	})
+	reg(&PropSpec{
 		ID: "C11", Prefix: "vh_C11_",
 		Quick:    Tier{Params: map[string]int{"segs": 2, "seg_len": 2}},
 		Thorough: Tier{Params: map[string]int{"segs": 3, "seg_len": 2}},
